@@ -770,7 +770,7 @@ def run(c):
               dict(a=rng.uniform(0.5, 2), e=-10 ** rng.uniform(-8, 0)),
               dict(a=rng.uniform(0.5, 2), e=e_h),
               dict(a=-rng.uniform(0.5, 2), e=rng.uniform(0, 0.99)),
-              dict(a=-rng.uniform(0.5, 2), e=e_h, f=math.acos(-1 / e_h) * rng.uniform(1.001, 1.9) * rng.choice([1, -1])),
+              dict(a=-rng.uniform(0.5, 2), e=e_h, f=(math.acos(-1 / e_h) + rng.uniform(0.01, 0.99) * (2 * PI - 2 * math.acos(-1 / e_h))) * rng.choice([1, -1])),
               dict(a=rng.uniform(0.5, 2), e=rng.uniform(0, 0.9), primary=P(m=rng.choice([0.0, 1e-310, -1.0]))),
               dict(a=rng.uniform(0.5, 2), ix=rng.uniform(1.5, 3), iy=rng.uniform(1.5, 3))][k]
         if rng.chance(0.5) and k != 4:
